@@ -49,9 +49,6 @@ type c18Scenario struct {
 	DotSlash bool        `json:"dstDotSlashSpelling,omitempty"`
 	Names    []c18Name   `json:"names"`
 	Sizes    map[int]int `json:"inodeSizes"`
-	// the source *name* is itself a symbolic link: outside C18's quantifier, run for the
-	// model/kernel correspondence only (see theorem move_symlink_source_loses_data)
-	Outside bool `json:"outsideQuantifier,omitempty"`
 }
 
 func c18Token(b []byte) string {
@@ -70,7 +67,8 @@ func c18ErrClass(err error) string {
 		return "ok"
 	}
 	var pe *os.PathError
-	if errors.As(err, &pe) && pe.Op == "copy" {
+	if errors.As(err, &pe) && (pe.Op == "copy" || pe.Op == "move") && pe.Err != nil &&
+		strings.Contains(pe.Err.Error(), "same file") {
 		return "samefile"
 	}
 	switch {
@@ -273,8 +271,10 @@ func c18Oracle(sc *c18Scenario, before, after []c18Obs, n int64, err error) (kin
 		return fmt.Sprintf("%d bytes (%s)", len(o.content), c18Token(o.content))
 	}
 	if !hadSrc {
-		if err == nil {
-			return "no-source-but-ok", fmt.Sprintf("%s of a source that is not a regular file returned nil", sc.Call)
+		// a missing source must fail; (a dangling symlink as the source of MoveFile is simply renamed:
+		// there is no content to preserve, the property says nothing)
+		if err == nil && before[si].own == "m" {
+			return "missing-source-but-ok", fmt.Sprintf("%s of a missing source returned nil", sc.Call)
 		}
 		return "", ""
 	}
@@ -351,7 +351,9 @@ func c18Matrix(sizes []int, cross bool, thorough bool) []c18Scenario {
 				add("src-missing,dst-missing"+x, call, size, c18K(0, "m", 0), c18K(1, "m", dd))
 				add("src-missing,dst-existing"+x, call, size, c18K(0, "m", 0), c18F(1, 1, dd))
 				add("src-parent-missing"+x, call, size, c18K(0, "n", 0), c18K(1, "m", dd))
-				add("src-is-symlink-to-file,dst-missing"+x, call, size, c18L(0, 2, 0), c18K(1, "m", dd), c18F(2, 0, 0)).Outside = call == "move"
+				add("src-is-symlink-to-file,dst-missing"+x, call, size, c18L(0, 2, 0), c18K(1, "m", dd), c18F(2, 0, 0))
+				add("src-is-symlink-to-file,dst-existing"+x, call, size, c18L(0, 2, 0), c18F(1, 1, dd), c18F(2, 0, 0))
+				add("src-is-symlink-chain,dst-symlink-to-other"+x, call, size, c18L(0, 2, 0), c18L(1, 4, dd), c18L(2, 3, 0), c18F(3, 0, 0), c18F(4, 1, dd))
 				add("src-has-second-link,dst-missing"+x, call, size, c18F(0, 0, 0), c18K(1, "m", dd), c18F(2, 0, 0))
 			}
 			// same device only: aliases through the name space
@@ -361,10 +363,13 @@ func c18Matrix(sizes []int, cross bool, thorough bool) []c18Scenario {
 			add("dst-hardlink-of-src", call, size, c18F(0, 0, 0), c18F(1, 0, 0))
 			add("dst-hardlink-of-src,third-link", call, size, c18F(0, 0, 0), c18F(1, 0, 0), c18F(2, 0, 0))
 		}
-		// outside the quantifier (source name is a symlink to the destination): correspondence only
-		sc := add("OUTSIDE:src-is-symlink-to-dst", "move", size, c18L(0, 1, 0), c18F(1, 0, 0))
-		sc.Outside = true
-		add("src-is-symlink-to-dst", "copy", size, c18L(0, 1, 0), c18F(1, 0, 0))
+		// the source name is a symbolic link (chain) to the destination: F9, repaired by cf1ff93
+		for _, call := range []string{"copy", "move"} {
+			add("src-is-symlink-to-dst", call, size, c18L(0, 1, 0), c18F(1, 0, 0))
+			add("src-is-symlink-chain-to-dst", call, size, c18L(0, 2, 0), c18F(1, 0, 0), c18L(2, 1, 0))
+			add("src-and-dst-symlinks-to-same-file", call, size, c18L(0, 2, 0), c18L(1, 2, 0), c18F(2, 0, 0))
+			add("src-is-symlink-to-hardlink-of-dst", call, size, c18L(0, 2, 0), c18F(1, 0, 0), c18F(2, 0, 0))
+		}
 	}
 	if thorough {
 		// symlink chains at the kernel's limit of 40 followed links
@@ -422,14 +427,16 @@ func c18Random(r *Rng, cross bool) c18Scenario {
 		}
 	}
 	sc.Call = Pick(r, []string{"copy", "move"})
-	// source: prefer regular-file entries; a directory source is outside the property and the
-	// model (rename/rmdir of directories are not modelled), a symlink source is fine for copy
+	// source: regular-file entries, missing names, symlinks that do not end at a directory; a
+	// directory source is outside the property and the model (rename/rmdir of directories are
+	// not modelled); a dangling/looping symlink source has no content to preserve, MoveFile
+	// renames the link itself (modelled)
 	var cands []int
 	for _, n := range sc.Names {
 		switch {
 		case n.Kind == "f", n.Kind == "m", n.Kind == "n", n.Kind == "t":
 			cands = append(cands, n.ID)
-		case n.Kind == "l" && sc.Call == "copy" && !c18ReachesDir(&sc, n.ID):
+		case n.Kind == "l" && !c18ReachesDir(&sc, n.ID):
 			cands = append(cands, n.ID)
 		}
 	}
@@ -506,7 +513,6 @@ func runFiles(cfg Cfg) {
 	}
 	s.Exhaustive = true // the listed matrix is run completely in both tiers
 
-	outsideSeen := map[string]bool{}
 	for idx := range scenarios {
 		sc := &scenarios[idx]
 		contents := map[int][]byte{}
@@ -562,21 +568,13 @@ func runFiles(cfg Cfg) {
 			s.Count("random." + sc.Call + "." + class)
 		}
 		if kind != "" {
-			if sc.Outside {
-				if !outsideSeen[sc.Label] {
-					outsideSeen[sc.Label] = true
-					s.Notes = append(s.Notes, fmt.Sprintf("outside the quantifier, not counted (%s): %s — %s; the model predicts the same (theorem move_symlink_source_loses_data)", sc.Label, kind, detail))
-				}
-				s.Count("outside-quantifier." + kind)
-			} else {
-				s.Violate(kind, detail+" | scenario "+sc.Label, map[string]any{"scenario": sc, "op": sc.opLine(contents),
-					"observed": class + " " + c18Describe(sc, after), "before": c18Describe(sc, before)})
-			}
+			s.Violate(kind, detail+" | scenario "+sc.Label, map[string]any{"scenario": sc, "op": sc.opLine(contents),
+				"observed": class + " " + c18Describe(sc, after), "before": c18Describe(sc, before)})
 		}
 		// statistics: the non-trivial branches
 		si, di := sc.idx(sc.Src), sc.idx(sc.Dst)
 		alias := before[si].res == "f" && before[di].res == "f" && os.SameFile(before[si].info, before[di].info)
-		fallback := sc.Call == "move" && before[si].own != "m" && (sc.Names[si].Dev != sc.Names[di].Dev || before[di].own == "d")
+		fallback := sc.Call == "move" && before[si].own != "m" && !alias && (sc.Names[si].Dev != sc.Names[di].Dev || before[di].own == "d")
 		if alias {
 			s.Count("branch.destination-aliases-source")
 		}
